@@ -7,11 +7,14 @@ ID = "C08"
 LEAN_MODULE = "BB.Properties.C08"
 QUICK_N = 90
 THOROUGH_N = 2000
-LEVEL_NOTE = ("partial: the specification side (cache unobservable, options independent) is proved in Lean; that the Python "
-              "methods do not mutate their receiver is decided by the refinement check against the value-semantics model. "
-              "Trusted: Lean kernel + propext/Classical.choice/Quot.sound, the correspondence harness; numpy/CPython modelled")
-TECHNIQUE = ("Lean 4 proof about an executable value-semantics model (read-only operations are functions of the state) + "
-             "refinement check of the implementation against that model over interleavings of read-only calls")
+LEVEL_NOTE = ("proved in Lean: (values) cache unobservable, options independent; (references, BB.Model.Heap) a read-only call - a "
+              "program that writes only what it allocated itself and validation caches - leaves every user-held object, its receiver "
+              "included, unchanged, for every history and interleaving (heap_query_frame, heap_readonly). Decided by correspondence, "
+              "not proved: that the Python methods are such programs (after every read-only call the id() walk finds no changed "
+              "object and no new sharing; every result equals the value model's). Trusted: Lean kernel + propext/Quot.sound/"
+              "Classical.choice, the harness incl. its object walker; numpy/CPython modelled not verified")
+TECHNIQUE = ("Lean 4 proofs about a value model and a reference-level ownership model (read-only calls frame everything) + "
+             "correspondence with the implementation over interleavings of read-only calls (results, snapshots, id()-level sharing)")
 RULE = ("a blueprint (waituntil, both marker kinds), an element (blueprint + raw-array channel, flags) and a valid sequence "
         "(1-3 positions, subsequences, raw arrays, flags, delays, filter compensations given by f_cut and by tau, sequencing); "
         "then an interleaving of 6-14 read-only calls drawn from {forge with any of the 8 option combinations, "
@@ -20,7 +23,9 @@ RULE = ("a blueprint (waituntil, both marker kinds), an element (blueprint + raw
         "BluePrint.description/points/duration/==}; after every call the description of all three objects and their forged "
         "arrays (two option combinations) are snapshotted; observed on the implementation alone: every snapshot equals the "
         "first one, and a repeated call returns the same result as its first occurrence; every result also equals the "
-        "model's; non-trivial = at least 6 read-only calls succeeded")
+        "model's; before the first and after every read-only call the reference-level observation: no user-held object changed "
+        "(structural snapshot of the real objects, validation caches aside), sharing between objects as BB.Model.Heap predicts, "
+        "no model fault; non-trivial = at least 6 read-only calls succeeded")
 ERRCLASS = False
 
 
